@@ -220,8 +220,9 @@ fn full_url(path: &str, search: &str, hash: &str) -> String {
 struct Mask {
     /// first segments / locale names that have a locale name as a strict prefix
     prefix_words: bool,
-    /// base paths "", "app", "/app", "app/", "a/b" (the core uses "/", "/app/", "/a/b/")
-    odd_base: bool,
+    /// base paths "", "app", "/app", "app/", "a/b" (the core uses "/", "/app/", "/a/b/"):
+    /// Some(i) = always ODD_BASES[i], Some(usize::MAX) = any of them
+    odd_base: Option<usize>,
     /// the generating route instance may have an optional parameter that is present
     optional_present: bool,
     /// the generating route instance may end with absent optionals or an empty splat
@@ -354,6 +355,10 @@ fn gen_table(t: &mut Tape, mask: Mask, set: &[u8]) -> Table {
                 _ => Seg::Splat("rest".to_string()),
             });
         }
+        // an index child route under a parent: (..., "")
+        if mask.trailing_empty && !matches!(r.last(), Some(Seg::Splat(_))) && t.chance(1, 4) {
+            r.push(Seg::Static(String::new()));
+        }
         routes.push(r);
     }
     Table { routes, loc_names }
@@ -420,8 +425,14 @@ fn gen_instance(t: &mut Tape, mask: Mask, set: &[u8], table: &Table, li: usize) 
 
 fn gen_case(t: &mut Tape, mask: Mask) -> Case {
     let set = gen_set(t, mask);
-    let base = if mask.odd_base && t.chance(3, 4) {
-        ODD_BASES[t.pick(ODD_BASES.len())].to_string()
+    let base = if let Some(i) = mask.odd_base {
+        if i < ODD_BASES.len() {
+            ODD_BASES[i].to_string()
+        } else if t.chance(3, 4) {
+            ODD_BASES[t.pick(ODD_BASES.len())].to_string()
+        } else {
+            CORE_BASES[t.weighted(&[3, 2, 1])].to_string()
+        }
     } else {
         CORE_BASES[t.weighted(&[3, 2, 1])].to_string()
     };
@@ -478,7 +489,7 @@ fn gen_case(t: &mut Tape, mask: Mask) -> Case {
             2 => {
                 if let Some(b) = base_segs.first() {
                     let l = NAMES[set[t.pick(set.len())] as usize];
-                    segs.push(if mask.odd_base && t.coin() { format!("{b}{l}") } else { format!("{b}le") });
+                    segs.push(if mask.odd_base.is_some() && t.coin() { format!("{b}{l}") } else { format!("{b}le") });
                 } else {
                     segs.push(gen_value(t, mask, &set));
                 }
@@ -623,6 +634,8 @@ fn styled_path(segs_before: &[String], rest: &[String], style: u8) -> String {
 /// what the model says about one switch step
 struct StepModel {
     next_rests: BTreeSet<Vec<String>>,
+    /// number of (current rest, route, binding) matches
+    match_count: usize,
     matched_any: bool,
     localized_differs: bool,
     /// some matching route instance has an optional parameter that is present
@@ -635,6 +648,7 @@ struct StepModel {
 fn step_model(table: &Table, cur_locale: usize, target: usize, cur_rests: &BTreeSet<Vec<String>>) -> StepModel {
     let mut m = StepModel {
         next_rests: BTreeSet::new(),
+        match_count: 0,
         matched_any: false,
         localized_differs: false,
         opt_present: false,
@@ -647,6 +661,7 @@ fn step_model(table: &Table, cur_locale: usize, target: usize, cur_rests: &BTree
         }
         for (r, b) in ms {
             m.matched_any = true;
+            m.match_count += 1;
             let inst = table.instantiate(r, target, &b);
             if inst != *rest {
                 m.localized_differs = true;
@@ -742,10 +757,17 @@ fn check_switches(
 
     check_read(c, cj, &cur_path, obs)?;
 
+    // the round trip is the identity only when every step is unambiguous: the path is an instance
+    // of exactly one route at every step, or of none at every step
+    let mut all_unique = true;
+    let mut all_free = true;
+
     for (step, (target, how)) in c.switches.iter().enumerate() {
         // expected rests under the target locale
         let sm = step_model(&c.table, cur_locale, *target, &cur_rests);
         let next_rests = sm.next_rests.clone();
+        all_unique &= cur_rests.len() == 1 && sm.match_count == 1;
+        all_free &= sm.match_count == 0;
         let (matched_any, localized_differs) = (sm.matched_any, sm.localized_differs);
         if localized_differs {
             nontrivial = true;
@@ -898,7 +920,7 @@ fn check_switches(
         check_read(c, cj, &cur_path, obs)?;
 
         // A -> ... -> A on a canonical URL is the identity
-        if step + 1 == c.switches.len() && *target == c.start && initial_canonical && next_rests.len() == 1 {
+        if step + 1 == c.switches.len() && *target == c.start && initial_canonical && (all_unique || all_free) {
             *obs += 1;
             classes.push("round-trip-to-start-locale".into());
             if actual != initial_url {
@@ -948,6 +970,19 @@ fn hooks_case(t: &mut Tape, mask: Mask) -> CaseResult {
     let cj = case_json(&c);
     let mut obs = 0u64;
     let segments = segments_map(&c);
+    let (opt, trail) = history_triggers(&c);
+    if (opt && !mask.optional_present) || (trail && !mask.trailing_empty) {
+        // a trigger class this engine excludes was hit by accident (free segments / ambiguous table):
+        // the case belongs to another engine; it is counted, not evaluated
+        let txt = serde_json::to_string(&cj).unwrap_or_default();
+        return Ok(CaseInfo {
+            hash: hash_str(&txt),
+            nontrivial: false,
+            classes: vec!["masked: trigger class of another engine (not evaluated)".into()],
+            sample: None,
+            observations: 0,
+        });
+    }
     let out = check_switches(&c, &cj, &segments, &mut obs)?;
     let mut classes = out.classes;
     let mut nontrivial = out.nontrivial;
@@ -1049,7 +1084,7 @@ fn dyn_seg(seg: &Seg) -> DynSeg<impl PossibleRouteMatch + Clone + std::fmt::Debu
 ///   2: (S, S)
 ///   3: (S, :opt?, S)
 ///   4: (S, :opt?)
-///   5: (S) -> children { 5a: (S), 5b: (S, S) }     (nested; flattened: (S,S) and (S,S,S))
+///   5: (S) -> children { 5i: "" (index), 5a: (S), 5b: (S, S) }   (nested; flattened: (S,""), (S,S), (S,S,S))
 /// where every S is static / i18n / param (/ splat when last in its leaf route).
 fn gen_template_table(t: &mut Tape, mask: Mask, set: &[u8]) -> Table {
     let n_keys = 4;
@@ -1079,9 +1114,10 @@ fn gen_template_table(t: &mut Tape, mask: Mask, set: &[u8]) -> Table {
     let r3 = vec![s(t, false, true), opt(t), s(t, true, false)];
     let r4 = vec![s(t, false, true), opt(t)];
     let p5 = s(t, false, true);
+    let r5i = vec![p5.clone(), Seg::Static(String::new())];
     let r5a = vec![p5.clone(), s(t, true, false)];
     let r5b = vec![p5, s(t, false, false), s(t, true, false)];
-    Table { routes: vec![vec![Seg::Static(String::new())], r1, r2, r3, r4, r5a, r5b], loc_names }
+    Table { routes: vec![vec![Seg::Static(String::new())], r1, r2, r3, r4, r5i, r5a, r5b], loc_names }
 }
 
 fn opt_name(seg: &Seg) -> &'static str {
@@ -1129,8 +1165,9 @@ fn nested_case(t: &mut Tape, mask: Mask) -> CaseResult {
         NestedRoute::new((dyn_seg(&rt[3][0]), OptionalParamSegment(opt_name(&rt[3][1])), dyn_seg(&rt[3][2])), ()),
         NestedRoute::new((dyn_seg(&rt[4][0]), OptionalParamSegment(opt_name(&rt[4][1]))), ()),
         NestedRoute::new((dyn_seg(&rt[5][0]),), ()).child((
-            NestedRoute::new((dyn_seg(&rt[5][1]),), ()),
-            NestedRoute::new((dyn_seg(&rt[6][1]), dyn_seg(&rt[6][2])), ()),
+            NestedRoute::new(StaticSegment(""), ()),
+            NestedRoute::new((dyn_seg(&rt[6][1]),), ()),
+            NestedRoute::new((dyn_seg(&rt[7][1]), dyn_seg(&rt[7][2])), ()),
         )),
     );
     let props = leptos::component::component_props_builder(&I18nRoute::<DynLocale, (), _>)
@@ -1324,9 +1361,16 @@ fn nested_case(t: &mut Tape, mask: Mask) -> CaseResult {
         v["match_nested_paths"] = json!(sample_paths);
         v
     };
-    let out = check_switches(&c, &cj, &real_segments, &mut obs)?;
-    classes.extend(out.classes);
-    nontrivial |= out.nontrivial;
+    let (opt, trail) = history_triggers(&c);
+    if mask.prefix_words {
+        // the prefix engine is about match_nested only (the hooks have their own prefix engine)
+    } else if opt || trail {
+        classes.push("switch part masked: trigger class of another engine (not evaluated)".into());
+    } else {
+        let out = check_switches(&c, &cj, &real_segments, &mut obs)?;
+        classes.extend(out.classes);
+        nontrivial |= out.nontrivial;
+    }
     classes.sort();
     classes.dedup();
     let txt = serde_json::to_string(&cj).unwrap_or_default();
@@ -1347,14 +1391,18 @@ impl any_spawner::CustomExecutor for DropExecutor {
     fn poll_local(&self) {}
 }
 
-const CORE: Mask = Mask { prefix_words: false, odd_base: false, optional_present: false, trailing_empty: false, browser_hash: false };
+const CORE: Mask = Mask { prefix_words: false, odd_base: None, optional_present: false, trailing_empty: false, browser_hash: false };
 
 fn engines() -> Vec<(&'static str, bool, Mask)> {
     vec![
         // (engine, uses the native I18nRoute, trigger classes allowed)
         ("hooks-core", false, CORE),
         ("hooks-prefix", false, Mask { prefix_words: true, ..CORE }),
-        ("hooks-base", false, Mask { odd_base: true, ..CORE }),
+        ("hooks-base-empty", false, Mask { odd_base: Some(0), ..CORE }),
+        ("hooks-base-app", false, Mask { odd_base: Some(1), ..CORE }),
+        ("hooks-base-slash-app", false, Mask { odd_base: Some(2), ..CORE }),
+        ("hooks-base-app-slash", false, Mask { odd_base: Some(3), ..CORE }),
+        ("hooks-base-a-b", false, Mask { odd_base: Some(4), ..CORE }),
         ("hooks-optional", false, Mask { optional_present: true, ..CORE }),
         ("hooks-trailing", false, Mask { trailing_empty: true, ..CORE }),
         ("hooks-hash", false, Mask { browser_hash: true, ..CORE }),
@@ -1363,7 +1411,7 @@ fn engines() -> Vec<(&'static str, bool, Mask)> {
         (
             "hooks-all",
             false,
-            Mask { prefix_words: true, odd_base: true, optional_present: true, trailing_empty: true, browser_hash: true },
+            Mask { prefix_words: true, odd_base: Some(usize::MAX), optional_present: true, trailing_empty: true, browser_hash: true },
         ),
     ]
 }
@@ -1408,9 +1456,11 @@ pub fn run(mut ctx: Ctx) -> ! {
                 continue;
             }
             let cases = match *name {
-                "hooks-core" => ctx.tier.scale(6000, 200_000),
-                "nested-core" | "nested-prefix" => ctx.tier.scale(3000, 100_000),
-                _ => ctx.tier.scale(3000, 100_000),
+                "hooks-core" => ctx.tier.scale(60_000, 1_000_000),
+                "hooks-all" => ctx.tier.scale(40_000, 600_000),
+                "nested-core" | "nested-prefix" => ctx.tier.scale(20_000, 250_000),
+                n if n.starts_with("hooks-base-") => ctx.tier.scale(6_000, 50_000),
+                _ => ctx.tier.scale(20_000, 250_000),
             };
             let ok = ctx.run_tapes(name, cases, 300, |t| if native { nested_case(t, mask) } else { hooks_case(t, mask) });
             all_ok &= ok;
